@@ -4,6 +4,7 @@ import common as C
 
 # pinned theorems per property: (Coq module, .vo target, [theorem names])
 THEOREMS = {}
+CURRENT_TIER = "quick"
 
 
 def register(prop, module, vo, names):
@@ -13,6 +14,8 @@ def register(prop, module, vo, names):
 class Ctx:
     def __init__(self, prop, tier, seed):
         self.prop, self.tier, self.seed = prop, tier, int(seed)
+        global CURRENT_TIER
+        CURRENT_TIER = tier
         self.rnd = random.Random("%s-%s" % (prop, seed))
         self.t0 = time.time()
         self.wd = C.workdir(prop)
@@ -118,7 +121,7 @@ def finish(ctx, proof, extra_obligations=None):
 
 def proof_stage(prop):
     module, vo, names = THEOREMS[prop]
-    return C.proof_stage(prop, module, vo, names)
+    return C.proof_stage(prop, module, vo, names, coqchk=(CURRENT_TIER == "thorough"))
 
 
 def builds(profiles=("debug",)):
